@@ -152,7 +152,42 @@ def program(spec, pname, tier, cap):
         hs.append(Harness(name="h_props_n%d" % N, body=body, unwind=N + 2, kind="symbolic",
                           desc="get_str/get_int/get_bool(key) vs declared table for every variant and every valid UTF-8 key <= %d bytes" % N,
                           bound={"N_bytes": N, "alphabet": "all valid UTF-8", "variant": "all declared"}, min_covers=ncov, functions=fns))
+    if nvar:
+        hs.append(Harness(name="h_e2_replay", native_only=True, desc="replay vehicle for E2 models: any key up to 64 bytes, any variant",
+                          body="""    use strum::EnumProperty;
+    let ss = SymStr::<64>::utf8();
+    let k = nd_u8();
+    vassume((k as usize) < %d);
+    let e = make(k);
+    let key = ss.as_str();
+    match (e.get_str(key), exp_str(k, ss.bytes())) { (Some(a), Some(b)) => assert!(beq(a.as_bytes(), b)), (None, None) => {}, _ => assert!(false, "get_str disagrees with the declared properties") }
+    assert!(e.get_int(key) == exp_int(k, ss.bytes()), "get_int disagrees with the declared properties");
+    assert!(e.get_bool(key) == exp_bool(k, ss.bytes()), "get_bool disagrees with the declared properties");""" % nvar))
     return Program(name=pname, enum_src=src, helper_src=helper, harnesses=hs, summary=render_enum(spec), role=spec.role, note=spec.note)
+
+
+specs_cache = {}
+
+
+def e2(run, programs, tier, seed, known):
+    import e2str
+    import mir2smt_str as ms
+    specs = [s for s in specs_cache.get((tier, seed), []) if not s.generics and s.variants]
+
+    def vcs_of(fns, sp):
+        tables = {v.ident: (merged_props(v) if not v.disabled else {"str": {}, "int": {}, "bool": {}}) for v in sp.variants}
+        return ms.props_vcs(fns, sp, discriminants(sp), tables)
+
+    def vec_of(sp, vc):
+        # VC names are <getter>_<Variant>_...: recover the variant to replay with
+        for i, v in enumerate(sp.variants):
+            if ("_%s_" % v.ident) in vc["name"]:
+                return [bytes([i])]
+        return [bytes([0])]
+
+    return e2str.run_e2(run, programs, specs, "", [], lambda sp: None, known, derive="EnumProperty", vcs_of=vcs_of, vec_of=vec_of,
+                        claim="for EVERY key string of any length and every declared variant: get_str / get_int / get_bool reached through the "
+                              "getters' MIR return Some(x) exactly on the declared (variant, key, type) triples")
 
 
 def build(tier, seed):
@@ -160,6 +195,7 @@ def build(tier, seed):
     cap = 10 if tier == "quick" else 14
     specs = pivot() + random_specs(rng, 6 if tier == "quick" else 20)
     programs = [program(s, "p%03d" % i, tier, cap) for i, s in enumerate(specs)]
+    specs_cache[(tier, seed)] = specs
     return {
         "programs": programs,
         "harness_timeout": 600 if tier == "quick" else 2400,
